@@ -29,6 +29,9 @@ ASSUMPTIONS = ["error objects are those the library itself can represent (typed 
 
 PERMANENT = {-32700, -32600, -32601, -32602, -32003, -32005, -32006, -32007, -32008, -32000}
 
+# server texts that are dangerous to format / log / parse carelessly
+MESSAGES = ["server says {c}", "disk is 100% full ({c})", "%s %d %(name)s {c}", "{{braces}} {{0}} {c}", "file:///My%20Documents/x {c}",
+            "line1\nline2 {c}", "cancel scope protocol version {c}", "\u2028\U0001f600 {c}", "{c} " + "long " * 400, "'quoted\" {c}"]
 DATA_SHAPES = ["absent", None, 0, 1.5, "s", [], [1], {}, {"k": None}, True]
 
 
@@ -102,7 +105,7 @@ def run(ctx):
             c = case["code"]
             err: Dict[str, Any] = {"code": c}
             if case["msg"] == "present":
-                err["message"] = f"server says {c}"
+                err["message"] = MESSAGES[c % len(MESSAGES)].replace("{c}", str(c))
             if case["data"] != "absent":
                 err["data"] = case["data"]
             # direct classifier call
@@ -161,7 +164,7 @@ def run(ctx):
                     if not (type(val.code) is int and val.code == c):
                         ctx.violation("code_not_carried", f"code {c}: exception carries code {val.code!r}", case)
                     text = str(val)
-                    if case["msg"] == "present" and f"server says {c}" not in text:
+                    if case["msg"] == "present" and MESSAGES[c % len(MESSAGES)].replace("{c}", str(c)) not in text:
                         ctx.violation("message_not_carried", f"code {c}: text {text!r} lacks server message", case)
                     if case["msg"] == "absent" and E.get_error_message(c) not in text:
                         ctx.violation("message_not_carried", f"code {c}: text {text!r} lacks default message", case)
@@ -201,7 +204,7 @@ def run(ctx):
                     rs.send_nowait(parse_message({"jsonrpc": "2.0", "id": req.id, "result": res if res is not None else {}}))
                 else:
                     rs.send_nowait(parse_message({"jsonrpc": "2.0", "id": req.id,
-                                                  "error": {"code": case["code"], "message": f"server says {case['code']}"}}))
+                                                  "error": {"code": case["code"], "message": MESSAGES[case["code"] % len(MESSAGES)].replace("{c}", str(case["code"]))}}))
             st = asyncio.create_task(server())
             try:
                 res = await fn(rr, ws, **kwargs)
@@ -239,11 +242,99 @@ def run(ctx):
                 ctx.violation("error_completed_normally", f"{short}: error {c} returned {val!r}", case)
             elif type(val) is not (E.NonRetryableError if want_perm else E.RetryableError):
                 ctx.violation("wrong_exception_class", f"{short}: code {c} raised {type(val).__name__}: {val!r}", case)
-            elif val.code != c or f"server says {c}" not in str(val):
+            elif val.code != c or MESSAGES[c % len(MESSAGES)].replace("{c}", str(c)) not in str(val):
                 ctx.violation("code_not_carried", f"{short}: code {c} raised {val!r} code={val.code!r}", case)
         ctx.record(case, shape=(kind, type(val).__name__), cls="helper")
     ctx.extra["helpers_discovered"] = sorted(h.rsplit(".", 1)[-1] for h in helpers)
+    # ---- through the stdio context managers: the exception raised inside the `async with` body must also leave it ----
+    if ctx.shard[0] == 0:
+        wrapper_tier(ctx)
     ctx.require_reached("error_responses_delivered")
+
+
+def wrapper_tier(ctx):
+    """send_message inside `async with stdio_client(...)` / stdio_client_with_initialize(...) / StdioTransport: the
+    classified exception must propagate out of the block (not be absorbed by the context manager's own error
+    filtering), for every message text."""
+    import importlib
+    import json
+    from chuk_mcp.protocol.types import errors as E
+    from chuk_mcp.protocol.messages.send_message import send_message
+    from chuk_mcp.transports.stdio.parameters import StdioParameters
+    from vf.recorders import OpenProcessPatch, ScriptedProcess
+    SC = importlib.import_module("chuk_mcp.transports.stdio.stdio_client")
+
+    for wrapper in ("stdio_client", "stdio_client_with_initialize", "stdio_transport"):
+        for k, tmpl in enumerate(MESSAGES):
+            for code in (-32603, -32601, 429 + k):
+                text = tmpl.replace("{c}", str(code))
+                case = {"wrapper": wrapper, "code": code, "message": text[:80]}
+
+                def factory(command, _text=text, _code=code, **kw):
+                    p = ScriptedProcess([], hold_open=True)
+                    orig = p.stdin.send
+
+                    async def send(data):
+                        await orig(data)
+                        for line in data.split(b"\n"):
+                            try:
+                                req = json.loads(line)
+                            except Exception:
+                                continue
+                            if not isinstance(req, dict) or "id" not in req:
+                                continue
+                            if req.get("method") == "initialize":
+                                p.feed((json.dumps({"jsonrpc": "2.0", "id": req["id"], "result": {
+                                    "protocolVersion": "2025-06-18", "capabilities": {}, "serverInfo": {"name": "s", "version": "1"}}}) + "\n").encode())
+                            else:
+                                p.feed((json.dumps({"jsonrpc": "2.0", "id": req["id"], "error": {"code": _code, "message": _text}},
+                                                   ensure_ascii=False) + "\n").encode())
+                    p.stdin.send = send
+                    return p
+
+                async def main():
+                    params = StdioParameters(command="scripted")
+                    reached_after = False
+                    inner = None
+                    try:
+                        with OpenProcessPatch(factory):
+                            if wrapper == "stdio_client":
+                                cm = SC.stdio_client(params)
+                            elif wrapper == "stdio_client_with_initialize":
+                                cm = SC.stdio_client_with_initialize(params, timeout=5.0)
+                            else:
+                                from chuk_mcp.transports.stdio.transport import StdioTransport
+                                cm = StdioTransport(params)
+                            async with cm as got:
+                                r, w = (await got.get_streams()) if wrapper == "stdio_transport" else got[:2]
+                                try:
+                                    await send_message(r, w, "tools/list", None, timeout=2.0)
+                                except BaseException as e:  # noqa
+                                    inner = e
+                                    raise
+                            reached_after = True
+                    except BaseException as e:  # noqa
+                        if isinstance(e, (KeyboardInterrupt, SystemExit)):
+                            raise
+                        return inner, e, reached_after
+                    return inner, None, reached_after
+
+                try:
+                    (inner, outer, after), _ = run_virtual(main, max_iterations=300_000)
+                except HangDetected as e:
+                    ctx.violation("hang", f"{wrapper}: {e}", case)
+                    continue
+                ctx.count("wrapper_error_responses")
+                want = E.NonRetryableError if code in PERMANENT else E.RetryableError
+                if type(inner) is not want:
+                    ctx.violation("wrong_exception_class", f"inside {wrapper}: send_message raised {inner!r}", case)
+                elif after or outer is None:
+                    ctx.violation("error_swallowed_by_context_manager", f"{wrapper}: the {type(inner).__name__} raised inside the "
+                                  f"`async with` body (server message {text[:50]!r}) did not leave the block: execution "
+                                  f"continued after it", case)
+                elif outer is not inner and not (isinstance(outer, BaseExceptionGroup) and inner in outer.exceptions):
+                    ctx.violation("error_replaced_by_context_manager", f"{wrapper}: body raised {inner!r}, the block raised {outer!r}", case)
+                ctx.record(case, shape=[type(inner).__name__, type(outer).__name__, after], cls="wrapper:" + wrapper)
 
 
 def replay(ctx, case):
